@@ -90,6 +90,8 @@ type coreRun struct {
 	curOp  map[string]string
 	rootDone bool
 	rcloseBy string
+	rcloseN  int
+	rootCloseUsed bool
 	gtab   []uint64
 	panics []string
 }
@@ -166,6 +168,10 @@ func (r *coreRun) reporterCall(kind, name string, tags map[string]string, i int6
 	if r.s != nil {
 		t = r.s.Current
 	}
+	if strings.HasPrefix(name, "tally.internal.") || strings.HasPrefix(tags["\x00name"], "tally.internal.") {
+		r.log(M{"e": "internal", "k": kind, "name": name, "t": t}) // the library's own cardinality gauges: not user metrics
+		return
+	}
 	switch kind {
 	case "counter":
 		r.log(M{"e": "dlv", "k": "counter", "t": t, "id": renderID(name, tags), "v": r.units(i)})
@@ -179,6 +185,7 @@ func (r *coreRun) reporterCall(kind, name string, tags map[string]string, i int6
 		r.log(M{"e": "flush", "t": t})
 	case "rclose":
 		r.rcloseBy = t
+		r.rcloseN++
 		r.log(M{"e": "rclose", "t": t})
 	case "alloc":
 		r.log(M{"e": "alloc", "t": t, "k": name, "id": renderID(tags["\x00name"], stripName(tags))})
@@ -395,7 +402,7 @@ func (r *coreRun) runThread(ts ThreadSpec) {
 		case "rec":
 			tm := h.s.Timer(op.M)
 			id := renderID(qualify(h.prefix, op.M), h.tags)
-			r.log(M{"e": "timercall", "t": ts.Name, "id": id, "v": int(op.V)})
+			r.log(M{"e": "timercall", "t": ts.Name, "id": id, "v": int(op.V), "inert": h.inert})
 			tm.Record(timerTable[op.V])
 			r.log(M{"e": "timerret", "t": ts.Name})
 		case "hrec":
@@ -431,10 +438,13 @@ func (r *coreRun) runThread(ts ThreadSpec) {
 			}
 			r.log(M{"e": "closeret", "t": ts.Name, "o": h.obj})
 		case "rootclose":
+			r.rootCloseUsed = true
 			r.log(M{"e": "rootclosecall", "t": ts.Name})
+			before := r.rcloseN
 			err := r.closer.Close()
+			closedReporter := r.rcloseN > before && r.rcloseBy == ts.Name
 			ended := !r.sc.Loop || r.s.Finished("loop")
-			r.log(M{"e": "rootcloseret", "t": ts.Name, "err": err != nil, "experr": r.sc.CloseErr && r.sc.Closer && r.rcloseBy == ts.Name, "loopended": ended})
+			r.log(M{"e": "rootcloseret", "t": ts.Name, "err": err != nil, "experr": r.sc.CloseErr && r.sc.Closer && closedReporter, "loopended": ended})
 		case "pass":
 			tally.VerifReportOnce(r.root)
 		}
@@ -467,8 +477,8 @@ func newCoreRun(sc *Scenario, withSched bool) *coreRun {
 			r.ticker = t
 			t.Reset(time.Hour)
 		})
-		// wg.Wait in Close: enabled once the loop goroutine has exited (or there is none)
-		r.s.Override["cl_wait"] = func() bool { return !r.s.Exists("loop") || r.s.Finished("loop") }
+		// wg.Wait in Close has no enabledness predicate: the closer is let into it and watched
+		r.s.MayBlock["cl_wait"] = true
 		// the loop goroutine at its select: a tick is taken only when the scheduler hands one out
 		r.s.Override["rl_select"] = func() bool {
 			return r.ticks < sc.MaxTicks || r.doneClosed()
